@@ -197,7 +197,9 @@ def main():
     def _is_timeout(v):
         return any(isinstance(x, dict) and x.get("exc") == "Timeout" for k, x in v.items() if k != "case")
     timeouts = [v for v in semantic if _is_timeout(v)]
-    if timeouts and prop != "C14":
+    # C14 states termination: up to a handful of persistent time-outs are reported as violations there; dozens of them mean an
+    # overloaded machine for C14 too
+    if timeouts and (prop != "C14" or len(timeouts) > 6):
         semantic = [v for v in semantic if not _is_timeout(v)]
         rep["semantic"] = semantic
         if not semantic and not rep.get("structural") and not proof_problems:
